@@ -8,7 +8,7 @@
 //!     queue events. If no thread is running and none can proceed on its own, and that state
 //!     persists with no new event, the run is declared stuck - a verdict from state, not time.
 //!   * offline: protocol accounting over the complete log (conservation of contigs, tokens per
-//!     round, four barrier passages per worker per round, every worker exits after the last
+//!     round, the same barrier passages for every worker in every round, every worker exits after the last
 //!     round) and a final check that every pushed contig is in the archive.
 //! The parent keeps a generous wall-clock watchdog whose firing is "inconclusive" only.
 
